@@ -146,6 +146,10 @@ cart(os.path.join(work, 'lib.p8'), libl)
 cart(os.path.join(work, 'sub', 'lib2.p8'), [b'l2 = 2\n', b'-->8\n', b'l2b = 22\n'])
 open(os.path.join(work, 'a.lua'), 'wb').write(b'a1 = 1\na2 = 2\n')
 open(os.path.join(work, 'sub', 'b.lua'), 'wb').write(b'b1 = 1\n')
+# targets whose last line has no line end: the spliced lines are the file's own lines, nothing is added
+open(os.path.join(work, 'noeol.lua'), 'wb').write(b'n1 = 1\nn2 = 2')
+open(os.path.join(work, 'oneline.lua'), 'wb').write(b'o = 1')
+open(os.path.join(work, 'noeol.p8'), 'wb').write(HDR + b'p1 = 1\n-->8\np2 = 2')
 # a .p8.png target: write lib.p8 as png
 g = pfile.from_file(os.path.join(work, 'sub', 'lib2.p8'))
 pfile.to_file(g, os.path.join(work, 'libpng.p8.png'))
@@ -158,7 +162,9 @@ def tab_lines(all_lines, n):
         elif n is None or n == cur: out.append(l)
     return out
 TARGETS = {b'a.lua': [b'a1 = 1\n', b'a2 = 2\n'], b'sub/b.lua': [b'b1 = 1\n'], b'lib.p8': tab_lines(libl, None), b'sub/lib2.p8': [b'l2 = 2\n', b'-->8\n', b'l2b = 22\n'],
-           b'libpng.p8.png': [b'l2 = 2\n', b'-->8\n', b'l2b = 22\n']}
+           b'libpng.p8.png': [b'l2 = 2\n', b'-->8\n', b'l2b = 22\n'],
+           b'noeol.lua': [b'n1 = 1\n', b'n2 = 2'], b'oneline.lua': [b'o = 1'], b'noeol.p8': [b'p1 = 1\n', b'-->8\n', b'p2 = 2'], b'noeol.p8:1': [b'p2 = 2'],
+           b'noeol.p8:0': [b'p1 = 1\n']}
 for n in range(0, 6):
     TARGETS[b'lib.p8:%d' % n] = tab_lines(libl, n)
 # the Lua code of a .p8.png cart is what the cart loader reports for it (the reader normalises the trailing newline)
